@@ -565,5 +565,108 @@ func c10CyclesDense(n, minM int) {
 	rt.Reach("end")
 }
 
+// c10InducedSparse: NumberOfInducedPaths / NumberOfInducedCycles on every labelled graph
+// on n vertices with at most maxM edges (solver-pruned family: trees, unicyclic graphs and
+// their subgraphs are where induced paths are long and branch).
+func c10InducedSparse(n, maxM int) {
+	bits := make([]byte, n*(n-1)/2)
+	cnt := byte(0)
+	for k := range bits {
+		bits[k] = rt.Bit("e")
+		cnt += bits[k]
+	}
+	rt.Assume(cnt <= byte(maxM))
+	for k := range bits {
+		bits[k] = rt.ConcreteByte(bits[k])
+	}
+	c10InducedCheck(vgAdj(n, bits))
+	rt.Reach("end")
+}
+
+// c10InducedTrees: every labelled tree on n vertices (harness-side Pruefer decoding of
+// every code), where every path is induced and the path search branches most.
+func c10InducedTrees(n int) {
+	code := make([]int, n-2)
+	for i := range code {
+		code[i] = rt.Choice("p", n)
+	}
+	deg := make([]int, n)
+	for i := range deg {
+		deg[i] = 1
+	}
+	for _, v := range code {
+		deg[v]++
+	}
+	adj := make([][]bool, n)
+	for i := range adj {
+		adj[i] = make([]bool, n)
+	}
+	for _, v := range code {
+		for u := 0; u < n; u++ {
+			if deg[u] == 1 {
+				adj[u][v], adj[v][u] = true, true
+				deg[u]--
+				deg[v]--
+				break
+			}
+		}
+	}
+	a, b := -1, -1
+	for u := 0; u < n; u++ {
+		if deg[u] == 1 {
+			if a < 0 {
+				a = u
+			} else {
+				b = u
+			}
+		}
+	}
+	adj[a][b], adj[b][a] = true, true
+	c10InducedCheck(adj)
+	rt.Reach("end")
+}
+
+func c10InducedCheck(adj [][]bool) {
+	n := len(adj)
+	_, icyc, ipath := c10Counts(adj)
+	var g Graph
+	if rt.Choice("rep", 2) == 0 {
+		g = vgDense(adj)
+	} else {
+		g = vgSparse(adj)
+	}
+	mls := []int{-1, n - 2}
+	ml := mls[rt.Choice("maxLength", len(mls))]
+	var ic, ip []int
+	p, msg := rt.Panics(func() { ic = NumberOfInducedCycles(g, ml) })
+	rt.Check(!p, "NumberOfInducedCycles panicked: "+msg)
+	if !p {
+		eff := ml
+		if eff < 0 || eff > n {
+			eff = n
+		}
+		rt.Check(len(ic) == n+1, "NumberOfInducedCycles: wrong length")
+		for l := 0; l <= eff && l < len(ic); l++ {
+			rt.Check(ic[l] == icyc[l], "NumberOfInducedCycles wrong")
+		}
+	}
+	p, msg = rt.Panics(func() { ip = NumberOfInducedPaths(g, ml) })
+	rt.Check(!p, "NumberOfInducedPaths panicked: "+msg)
+	if !p {
+		eff := ml
+		if eff < 0 || eff > n-1 {
+			eff = n - 1
+		}
+		rt.Check(len(ip) == n, "NumberOfInducedPaths: wrong length")
+		for l := 0; l <= eff && l < len(ip); l++ {
+			rt.Check(ip[l] == ipath[l], "NumberOfInducedPaths wrong")
+		}
+	}
+}
+
+func H_c10_inducedtrees_q() { c10InducedTrees(6) }
+func H_c10_inducedtrees_t() { c10InducedTrees(7) }
+func H_c10_induced6_t()     { c10InducedSparse(6, 7) }
+
 func H_c10_cycles6_q() { c10CyclesDense(6, 10) }
 func H_c10_cycles6_t() { c10CyclesDense(6, 7) }
